@@ -1,36 +1,37 @@
 CONSTANTS
   Server = {1, 2, 3}
-  Campaigners = {1, 2, 3}
-  MaxTerm = 1
+  Campaigners = {1, 3}
+  MaxTerm = 2
   MaxProposals = 0
-  MaxCrashes = 1
+  MaxCrashes = 0
   MaxDrops = 0
   MaxDups = 0
   MaxHeartbeats = 0
-  MaxLog = 2
-  MaxNet = 6
+  MaxLog = 4
+  MaxNet = 4
   MaxEnts = 0
   LossySend = FALSE
   SimDepth = 0
   W_CommitAnyTerm = FALSE
   W_VoteIgnoreVoted = FALSE
   W_VoteIgnoreLog = FALSE
-  W_NoPersistVote = TRUE
+  W_NoPersistVote = FALSE
   W_AppendAlwaysTruncates = FALSE
   W_HeartbeatCommitUnbounded = FALSE
   W_QuorumMinusOne = FALSE
   PreVote = FALSE
   W_PreVoteRespCountsAsVote = FALSE
-  ConfChange = FALSE
-  InitVoters = {1, 2, 3}
-  AddVoters = {}
-  RemoveVoters = {}
-  MaxConfChanges = 0
-  MaxConfRefusals = 0
+  ConfChange = TRUE
+  InitVoters = {1, 2}
+  AddVoters = {3}
+  RemoveVoters = {1, 2}
+  MaxConfChanges = 1
+  MaxConfRefusals = 1
   W_ConfChangeNoPendingCheck = FALSE
   W_AddedVoterCaughtUp = FALSE
 INIT Init
 NEXT Next
 CONSTRAINT NetBound
 VIEW view
-INVARIANT EmitAttack
+INVARIANTS ElectionSafety LogMatching StateMachineSafety LeaderCompleteness CommitWithinLog PersistedMatchesVolatile MatchSound
+PROPERTY HardStateMonotonic
